@@ -385,9 +385,10 @@ def check_fit_eval(chk, fi) -> Optional[Set[str]]:
         "column-guard": "a table without the optional insertion-code column is fitted as well",
         "dtype-typestate": "no conversion of a categorical column fails on the representative tables",
     }
-    decided = set(texts) - {"dtype-typestate", "column-guard"}
-    if "column-guard" in bad or any(k == "no-icode" for _, k, *_ in FIT_TABLES):
-        decided.add("column-guard")
+    # a rule is decided here only when at least one table reached the place where it is looked at
+    decided = {r for r in texts if okc.get(r, 0) > 0} - {"dtype-typestate"}
+    if "column-guard" not in bad and okc.get("residue-map", 0) + len(bad.get("residue-map", [])) >= len(FIT_TABLES):
+        decided.add("column-guard")  # every table, the one without the optional column included, went through the renumbering
     with evidence(chk, *sorted(set(texts))):
         for rule in sorted(set(texts)):
             if rule in bad:
